@@ -25,7 +25,7 @@ def one_case(r, drv, kinds=None):
     act_ren = r.random() < 0.75
     act_fact = r.random() < 0.75
     process = r.choice(["EM", "NC", "CC"])
-    scheme, nfff = r.choice([("ZM-VFNS", 4), ("FFNS", 3), ("FFNS", 4), ("FFN0", 3), ("FONLL-FFNS", 4)])
+    scheme, nfff = r.choice([("ZM-VFNS", 4), ("ZM-VFNS", 4), ("ZM-VFNS", 4), ("FFNS", 3), ("FFNS", 4), ("FFN0", 3), ("FONLL-FFNS", 4)])
     kind = r.choice(kinds or (cards.UNPOL if process == "CC" else ["F2", "FL", "F3", "g1"]))
     if pto == 3 and kind in ("g1",):
         pto = 2
@@ -34,9 +34,12 @@ def one_case(r, drv, kinds=None):
         fl = "light"  # massive N3LO needs interpolation tables (slow); the algebra is channel blind
     name = f"{kind}_{fl}"
     Q2 = float(r.choice([3.0, 30.0, 300.0]))
+    # a second point, usually on the other side of a threshold: it is computed *first* on the same
+    # runner so that every memo of the scale-variation manager is already populated (history)
+    Q2_first = float(r.choice([q for q in (3.0, 30.0, 300.0, 1.5) if q != Q2]))
     x = float(r.choice([0.02, 0.1, 0.5]))
     t = cards.theory(PTO=r.choice([0, 1]), PTODIS=pto, FNS=scheme, NfFF=nfff, RenScaleVar=act_ren, FactScaleVar=act_fact)
-    o = cards.obs({name: [dict(x=x, Q2=Q2)]}, prDIS=process, ProjectileDIS=r.choice(["electron", "neutrino"]) if process == "CC" else "electron", interpolation_xgrid=grid, interpolation_polynomial_degree=2, TargetDIS=r.choice(["proton", "iron"]))
+    o = cards.obs({name: [dict(x=x, Q2=Q2), dict(x=x, Q2=Q2_first)]}, prDIS=process, ProjectileDIS=r.choice(["electron", "neutrino"]) if process == "CC" else "electron", interpolation_xgrid=grid, interpolation_polynomial_degree=2, TargetDIS=r.choice(["proton", "iron"]))
     runner = yadism.Runner(t, o)
     esf = runner.observables[name].elements[0]
     svm = runner.configs.managers["sv_manager"]
@@ -66,6 +69,8 @@ def one_case(r, drv, kinds=None):
     cf.Combiner.collect_elems = fake_collect
     esfmod.conv.convolve_vector = fake_conv
     try:
+        runner.observables[name].elements[1].compute_local()  # history: another point (another nf) first
+        del calls[:]
         esf.compute_local()
     finally:
         cf.Combiner.collect_elems = orig_collect
